@@ -87,8 +87,12 @@ class GuardRun:
                     ops.append("(from_str %s)" % (c.oracle if c.oracle else "none"))
                 elif c.op == "de":
                     ops.append("(de %s)" % (c.oracle if c.oracle else "none"))
-                elif c.op in ("default",):
+                elif c.op in ("default", "arb_range"):
                     ops.append("(%s)" % c.op)
+                elif c.op == "arb":
+                    ops.append("(arb%s)" % c.arg[2:-1])
+                elif c.op == "cmp2":
+                    ops.append("(cmp2 %s)" % c.arg[3:-1])
                 elif c.op in ("try_from_ref",):
                     ops.append("(try_from %s)" % c.arg)
                 elif c.op in ("from_ref",):
@@ -140,8 +144,12 @@ class GuardRun:
             for c in ops:
                 if c.op in ("from_str", "de"):
                     parts.append("(%s %s)" % (c.op, c.oracle if c.oracle else "none"))
-                elif c.op == "default":
-                    parts.append("(default)")
+                elif c.op in ("default", "arb_range"):
+                    parts.append("(%s)" % c.op)
+                elif c.op == "arb":
+                    parts.append("(arb%s)" % c.arg[2:-1])
+                elif c.op == "cmp2":
+                    parts.append("(cmp2 %s)" % c.arg[3:-1])
                 elif c.op == "try_from_ref":
                     parts.append("(try_from %s)" % c.arg)
                 elif c.op == "from_ref":
